@@ -154,6 +154,21 @@ def c03(ctx):
     ctx.assumptions += ["TLC explores the bounded model completely (2 tokens, handles <= MaxH)",
                         "PIN symbols are concretised as random byte strings per seed",
                         "token flags (PIN count low) are not observed by this check (they are by C04 / C14 / C20)"]
+    # the two guards of the SO / read-only exclusion under threads (ConcTok): C_Login(CKU_SO) racing C_OpenSession(read-only)
+    if not ctx.violations:
+        import random
+        from checks import conc
+        tot = conc.new_tot()
+        tcs = dict(Threads=conc.THREADS, PinSyms='{"P0", "P1", "P2", "PX", "SO"}', InitPin='"P0"', Dev="{}")
+        for combo in ([("Lz,Ly", 2, 2500, False, True)] if quick else
+                      [("Lz,Ly", 2, 20000, False, True), ("Lz,Ly", 1, 10000, True, True), ("Lz,Lo", 2, 20000, False, True)]):
+            if not ctx.violations:
+                conc.run_combo(ctx, lib, combo, None, tcs, random.Random(ctx.seed), tot, tagp="c03-")
+        ctx.coverage["so_login_vs_readonly_session"] = dict(
+            schedules=tot["schedules"], executions=tot["executions"], accepted=tot["accepted"], calls=tot["calls"],
+            rule="one thread logs the SO in while another opens a read-only session (scheduler at the mutex callbacks, all "
+                 "two-preemption schedules); ConcTok: exactly one of the two may succeed first, and then the other is refused")
+        ctx.coverage["traces_validated_against_impl"] += tot["accepted"]
     if not ctx.violations:
         life_cycle(ctx, lib)
 
